@@ -64,6 +64,7 @@ type logEx struct {
 	respCE     string
 	respPlain  []byte // decoded response body
 	cutAt      int    // > 0: the origin closes its connection after this many bytes of the response (inside the body)
+	stallAt    int    // > 0: the origin pauses after this many bytes of the response until everything else has come to rest
 	reqCutAt   int    // > 0: the client closes its connection after this many bytes of the request (inside the body)
 }
 
@@ -374,6 +375,7 @@ type logPass struct {
 	snaps      map[string][]byte // "req#id" / "res#id" -> snapshot bytes
 	snapErr    map[string]error
 	failed     string
+	heldUp     []int // connections that had not finished while the origin paused inside another connection's response
 }
 
 func runLogPass(k *kernel.K, exs []*logEx, nconn int, logger string, opt map[string]bool) *logPass {
@@ -475,6 +477,9 @@ func runLogPass(k *kernel.K, exs []*logEx, nconn int, logger string, opt map[str
 		}
 		return nil
 	}))
+	var heldConn *OConn
+	var heldRest []byte
+	heldClose, heldClient := false, -1
 	origin := NewOrigin(k, n, "origin-a.test:80", func(oc *OConn, req *wire.Msg) *Reply {
 		e := byID[exchangeID(req.Target)]
 		if e == nil {
@@ -482,6 +487,11 @@ func runLogPass(k *kernel.K, exs []*logEx, nconn int, logger string, opt map[str
 		}
 		if e.cutAt > 0 {
 			return &Reply{Raw: e.resp.Encode(req.Method)[:e.cutAt], CloseAfter: true}
+		}
+		if e.stallAt > 0 && heldConn == nil {
+			raw := e.resp.Encode(req.Method)
+			heldConn, heldRest, heldClose, heldClient = oc, raw[e.stallAt:], respAsksClose(e.resp, req.Method), e.conn
+			return &Reply{Raw: raw[:e.stallAt]}
 		}
 		return &Reply{Raw: e.resp.Encode(req.Method), CloseAfter: respAsksClose(e.resp, req.Method)}
 	})
@@ -498,14 +508,31 @@ func runLogPass(k *kernel.K, exs []*logEx, nconn int, logger string, opt map[str
 			}
 		}
 	}
-	k.RunUntil(func() bool {
+	allDone := func() bool {
 		for _, c := range clients {
 			if !c.Done() {
 				return false
 			}
 		}
 		return true
-	})
+	}
+	k.RunUntil(allDone)
+	if heldConn != nil {
+		// the origin pauses inside one response; everything else has come to rest: what is going on
+		// on the other connections must be finished by now - with a logger as without
+		k.Probe("origin_pauses_inside_body")
+		for ci, c := range clients {
+			if ci != heldClient && !c.Done() {
+				p.heldUp = append(p.heldUp, ci)
+			}
+		}
+		heldConn.C.Inject(heldRest)
+		if heldClose {
+			heldConn.Closed = true
+			heldConn.C.Close()
+		}
+		k.RunUntil(allDone)
+	}
 	k.Drain()
 	for _, m := range origin.Requests() {
 		p.originReqs[exchangeID(m.Target)] = m
@@ -612,9 +639,31 @@ func runLog(k *kernel.K, focus string) {
 	k.Note("logger=%s options=%v", logger, opt)
 	k.Logf("workload %v %s %v", len(exs), logger, opt)
 
+	// With two connections, sometimes the origin pauses inside one response until everything else
+	// has come to rest: the exchanges on the other connection must not wait for it - with a logger
+	// as without.
+	if nconn == 2 && w.Chance(1, 3) {
+		var cand []*logEx
+		for _, e := range exs {
+			if e.cutAt == 0 && e.reqCutAt == 0 && e.req.Method != "HEAD" && (e.resp.Framing == "cl" || e.resp.Framing == "chunked") && len(e.resp.Body) > 1 {
+				cand = append(cand, e)
+			}
+		}
+		if len(cand) > 0 {
+			e := cand[w.Draw(len(cand))]
+			raw := e.resp.Encode(e.req.Method)
+			if h := bytes.Index(raw, []byte("\r\n\r\n")) + 4; h >= 4 && len(raw)-h > 2 {
+				e.stallAt = h + 1 + w.Draw(len(raw)-h-2)
+			}
+		}
+	}
 	plain := runLogPass(k, exs, nconn, "none", nil)
 	logged := runLogPass(k, exs, nconn, logger, opt)
 	if k.Inconclusive != "" {
+		return
+	}
+	if len(logged.heldUp) > len(plain.heldUp) {
+		k.Fail(focus+".twin_response", map[string]string{"logger": logger, "aspect": "other_connection_held_up", "fault": "origin_pauses_inside_body"}, "the origin paused inside a response on one connection until everything else had come to rest: without a logger the other connection had finished its exchanges by then (unfinished connections: %v), with logger %s %v it had not (unfinished: %v) - its exchanges wait for a body that is not theirs", plain.heldUp, logger, opt, logged.heldUp)
 		return
 	}
 	if plain.failed != "" || logged.failed != "" {
